@@ -67,6 +67,19 @@ fn gen(ctx: &GenCtx, i: u64) -> Option<Run> {
                 let k = r.pick(&pool).clone();
                 rb.push(Op::BuilderOp { b, op: BOp::SetClaim(ClaimSpec::Native { key: k, val: gen_native(&mut r) }) });
             }
+            7 => {
+                // a value that looks like the claim's own {key: value} envelope, possibly twice
+                let k = r.pick(&pool).clone();
+                let inner = gen_json(&mut r, 1);
+                let mut v = serde_json::json!({ k.clone(): inner });
+                if r.chance(1, 3) {
+                    v = serde_json::json!({ k.clone(): v });
+                }
+                if r.chance(1, 4) {
+                    v = serde_json::json!({ k.clone(): v, "other": 1 });
+                }
+                rb.push(Op::BuilderOp { b, op: BOp::SetClaim(ClaimSpec::Custom { key: k, value: v }) });
+            }
             _ => {
                 let k = r.pick(&pool).clone();
                 let depth = 1 + r.below(5) as u32;
